@@ -312,6 +312,68 @@ func runC20(c *core.Ctx) {
 			}
 		}
 	})
+	c.Check("C20-R2", "pdf.endstreamAt/short-read", "in endstreamAt a short read gives up only when every byte that was read is white space: bytes that arrived are examined before the end of the file is taken to be the end of the probe (a file truncated shortly behind a stream still has its endstream keyword)", func(o *core.Ob) {
+		fn := c.Prog.Func("pdf", "endstreamAt")
+		g := fn.Graph()
+		info := fn.Info()
+		n := 0
+		for _, cv := range callVerticesSuffix(g, ".ReadAt") {
+			as, ok := cv.V.AST.(*ast.AssignStmt)
+			if !ok || len(as.Lhs) != 2 || !g.InLoop(cv.V) {
+				continue
+			}
+			cnt := core.ObjOf(info, as.Lhs[0])
+			if cnt == nil {
+				continue
+			}
+			// the scan index: a local compared with the count
+			var idx *ast.Ident
+			for _, bv := range g.BranchVertices() {
+				if bv.Cond.Expr == nil {
+					continue
+				}
+				ast.Inspect(bv.Cond.Expr, func(m ast.Node) bool {
+					if be, ok := m.(*ast.BinaryExpr); ok && be.Op == token.LSS && core.ObjOf(info, be.Y) == cnt {
+						if id, ok := ast.Unparen(be.X).(*ast.Ident); ok && info.ObjectOf(id) != cnt {
+							idx = id
+						}
+					}
+					return true
+				})
+			}
+			if idx == nil {
+				continue
+			}
+			// returns reached under "count < len(buffer)" (a short read)
+			for _, rv := range g.Returns() {
+				rs, ok := rv.AST.(*ast.ReturnStmt)
+				if !ok || len(rs.Results) != 2 || !core.IsNil(info, rs.Results[1]) {
+					continue
+				}
+				short := g.GuardedBy(rv, func(a core.Atom) bool {
+					cmp, ok := a.AsCmp()
+					if !ok || cmp.Op != token.LSS || core.ObjOf(info, cmp.L) != cnt {
+						return false
+					}
+					call, ok := ast.Unparen(cmp.R).(*ast.CallExpr)
+					return ok && core.CalleeKey(info, call) == "builtin.len"
+				})
+				if !short {
+					continue
+				}
+				n++
+				o.At(fn.Site(rs, "gives up on a short read"))
+				want := core.Atom{Expr: &ast.BinaryExpr{X: idx, Op: token.GEQ, Y: as.Lhs[0]}}
+				holds, counter, decided := c.Prog.Implies(core.Formula{Fn: fn, Atoms: g.DominatingAtoms(rv)}, core.Formula{Fn: fn, Atoms: []core.Atom{want}})
+				if !decided {
+					o.Unrec("the condition of the short-read return was not decided")
+				} else if !holds {
+					o.FailAt(fn.Site(rs, ""), "the probe gives up on a short read although bytes that are not white space may have been read (%s): the keyword behind a stream close to the end of a truncated file is not looked at", counter)
+				}
+			}
+		}
+		o.Shape(n > 0, "no return under a short-read test was found in the white-space loop of endstreamAt")
+	})
 	c.Check("C20-R2", "pdf.(*FileInfo).locateObjects/eof", "the end of the input ends the marker scan normally; the scan fails outright only when no PDF content was found at all", func(o *core.Ob) {
 		fn := c.Prog.Func("pdf", "(*FileInfo).locateObjects")
 		g := fn.Graph()
